@@ -26,7 +26,8 @@ pub struct Case {
     maps: Vec<(String, u64, u64, String)>,
     /// dlopen this one and unlink its file afterwards
     deleted: bool,
-    /// 0 none, 1 disjoint, 2 wholly containing the first dlopen'ed module, 3 partially overlapping it
+    /// 0 none, 1 disjoint, 2 wholly containing the first dlopen'ed module, 3 partially overlapping it,
+    /// 4 two entries in descending address order (containing one second), 5 two entries, containing one first
     user: u8,
     /// tell the writer (direct auxv) that the program entry point lies in the first dlopen'ed module
     entry_in_lib: bool,
@@ -132,6 +133,16 @@ pub fn run_case(c: &Case) -> (Vec<(String, String)>, usize) {
         (1, _) => user.push(UserMap { start: 0x10_0000, size: 0x2000, name: "/user/disjoint.so".into(), id: (1..=16).collect() }),
         (2, Some(g)) => user.push(UserMap { start: (g.start - 0x1000) as usize, size: (g.end - g.start + 0x2000) as usize, name: "/user/containing.so".into(), id: (10..=29).collect() }),
         (3, Some(g)) => user.push(UserMap { start: (g.start + 0x1000) as usize, size: (g.end - g.start) as usize, name: "/user/partial.so".into(), id: vec![7; 20] }),
+        (4, Some(g)) => {
+            // two entries in DESCENDING address order (the natural load order): the containing one comes second
+            user.push(UserMap { start: (g.end_with_gap + 0x40_0000) as usize, size: 0x1000, name: "/user/high.so".into(), id: vec![9; 16] });
+            user.push(UserMap { start: (g.start - 0x1000) as usize, size: (g.end_with_gap - g.start + 0x2000) as usize, name: "/user/containing-second.so".into(), id: (40..=59).collect() });
+        }
+        (5, Some(g)) => {
+            // ascending order, the containing one first, then an unrelated low one
+            user.push(UserMap { start: (g.start - 0x1000) as usize, size: (g.end_with_gap - g.start + 0x2000) as usize, name: "/user/containing-first.so".into(), id: (60..=79).collect() });
+            user.push(UserMap { start: 0x20_0000, size: 0x1000, name: "/user/low.so".into(), id: vec![3; 16] });
+        }
         _ => {}
     }
     o.user_mappings = user.clone();
@@ -252,7 +263,7 @@ pub fn run_case(c: &Case) -> (Vec<(String, String)>, usize) {
 fn menu(thorough: bool) -> Vec<Case> {
     let libs = ["libfix_sha1.so", "libfix_8.so", "libfix_none.so", "libfix_zero.so", "libfix_nosoname.so", "lib with space.so", "libnonascii_\u{e9}.so", "libver.so.6.0.32", "libver2.so.3.34.2rc5"];
     let mut v = Vec::new();
-    for user in 0..4u8 {
+    for user in 0..6u8 {
         // each library alone
         for l in libs {
             if !thorough && user >= 2 && l != "libfix_sha1.so" && l != "libfix_none.so" {
@@ -285,7 +296,7 @@ fn menu(thorough: bool) -> Vec<Case> {
 }
 
 pub fn run(ctx: &Ctx, rep: &mut Report) {
-    rep.rule = "menu: 9 fixture libraries (build id sha1 / 8 bytes / none / all-zero, with/without SONAME, names with spaces / non-ASCII / .so.N suffixes) dlopen'ed alone and together, a library unlinked after loading, whole-file and offset mappings of ELF / non-ELF / truncated / archive-embedded images, each under 4 user-mapping lists; plus the puppet binary, libc, ld.so and the vDSO in every case. nontrivial = cases whose expected module list has at least 4 entries".into();
+    rep.rule = "menu: 9 fixture libraries (build id sha1 / 8 bytes / none / all-zero, with/without SONAME, names with spaces / non-ASCII / .so.N suffixes) dlopen'ed alone and together, a library unlinked after loading, whole-file and offset mappings of ELF / non-ELF / truncated / archive-embedded images, each under 6 user-mapping lists (none, disjoint, containing, partially overlapping, two entries in descending / ascending order); plus the puppet binary, libc, ld.so and the vDSO in every case. nontrivial = cases whose expected module list has at least 4 entries".into();
     rep.assume("shapes whose expected treatment the statement leaves open (a non-executable mapping at a non-zero offset) are in the menu only as 'must not produce a wrong module', never as 'must be listed'");
     if let Some(case) = &ctx.replay {
         let Some(c) = Case::from_json(case) else {
